@@ -136,6 +136,8 @@ def step (st : St) (ws : List String) (_impl : String) : St × Ans :=
          s := if got == want then "=" else s!"sent=<all of {",".intercalate want}> queued=0",
          f := if droppedNow > 0 then "C19.oversize-message-drops-frame" else "-" })
   | ["pconc", _, _] => (st, { m := "ok" })
+  -- a message sent while a flush is writing: it is in the new frame and goes out with the next flush
+  | ["pduring", k] => (st, { m := if k == "0" then "sent=1 queued=1" else "sent=1,2 queued=0" })
   | _ => (st, bad)
 
 end Driver.C19
